@@ -2,11 +2,11 @@
 # Development helper (not a registered command): run one property's check against a patch applied to a scratch worktree.
 #   mutant.sh <PROP> <worktree> <patch.diff> [tier]      prints the exit code and the VIOLATION lines
 prop=$1; wt=$2; patch=$3; tier=${4:-quick}; tag="mut_${prop}_$$"
-git -C "$wt" checkout -q -- . ; git -C "$wt" apply "$patch" || { echo "patch does not apply"; exit 3; }
+git -C "$wt" checkout -q -- . && git -C "$wt" clean -fdq ; git -C "$wt" apply "$patch" || { echo "patch does not apply"; exit 3; }
 out=/verif/build/scratch.$tag.log; mkdir -p /verif/build
 VERIF_SCRATCH=$tag VERIF_REPO=$wt PYTHONPATH=$wt PYTHONHASHSEED=0 PYTHONDONTWRITEBYTECODE=1 SYMPLYPHYSICS_VERIF=1 \
   timeout 1800 /venv/bin/python /verif/harness/main.py "$prop" --tier "$tier" > "$out" 2>&1
 rc=$?
-git -C "$wt" checkout -q -- .
+git -C "$wt" checkout -q -- . && git -C "$wt" clean -fdq
 echo "exit=$rc"; grep -E "^(VIOLATION|KNOWN-FINDING)" "$out" | cut -c1-200 | head -8; grep -E "violation:" "$out" | cut -c1-260 | head -5
 tail -1 "$out" | cut -c1-200
